@@ -892,14 +892,17 @@ func init() {
 		ID:    "C15",
 		Level: "model_checking",
 		Rule: "bindings built directly as Go values (nil, struct binding, slice bindings of 0-2 blocks; blocks with <=2 fields over 11 keys {x X y foo_bar in in.p emb z Name name żądło} and 17 values {int, float, string, bool, nil, int32, nested blocks named/unnamed/deep, a block with a nil Fields map, struct values that are not Blocks (struct{}, time.Time, a user struct, a type derived from Block), *Block, a slice, a map}; pointers (nil and not) to the binding types and wrappers embedding the Binding interface) crossed with ~1000 targets (nil, non-pointers, nil pointers, pointer to pointer, pointers to every Go kind, slices of non-structs and of pointers, hand-declared structs with embedded / embedded-pointer / unexported / tagged / colliding fields, generated structs with 1-2 fields over 20 field kinds). " +
-			"For each pair EVERY map iteration order of every range-over-map inside Bind is explored through the map-order choice point of the rewritten package. Oracle on every order: never panics; nil only if an independent matcher finds every key (and the name) stored unchanged in a distinct exported assignable field; on error a slice target is unchanged; fully storable plain cases must succeed. Plus every history of 2 (thorough 3) Bind calls over three distinct struct types that print the same name but differ in layout and tags (state carried between calls).",
-		Subs:           []*fw.Sub{subC15, subC15Hist},
+			"For each pair EVERY map iteration order of every range-over-map inside Bind is explored through the map-order choice point of the rewritten package. Oracle on every order: never panics; nil only if an independent matcher finds every key (and the name) stored unchanged in a distinct exported assignable field; on error a slice target is unchanged; fully storable plain cases must succeed. Sub-check c15.keys: keys that differ from a field name in one byte (every position x 12 byte variants, and one byte added in front / behind), keys and field names of every length 1..80 (thorough 300) spelled exactly / with one typo / longer / shorter, nested blocks 1..40 (thorough 120) levels deep into equally deep structs with a right / missing / mistyped innermost entry: judged by the same independent matcher. Plus every history of 2 (thorough 3) Bind calls over three distinct struct types that print the same name but differ in layout and tags (state carried between calls).",
+		Subs:           []*fw.Sub{subC15, subC15Hist, subC15Keys},
 		BudgetQuick:    100,
 		BudgetThorough: 1500,
 		Assumptions:    []string{"struct targets with more than 2 generated fields and blocks with more than 2 fields are outside the bound, except the wide family (8/9/10/17 keys on three nesting levels), for which only the first 300 map orders per pair are explored"},
 		Run: func(c *fw.Ctx) {
 			c15Tables()
 			c15Histories(c)
+			for _, kc := range c15KeysCases(c.Thorough()) {
+				c.Do(subC15Keys, kc)
+			}
 			bs := c15Bindings(c.Quick())
 			ts := c15Targets()
 			c.Bound("bindings", len(bs))
